@@ -310,6 +310,7 @@ func runHarness(ld *loaded, h harnessRef, cfg *Config, known map[string]bool, de
 		res.observes = e.observeChecks()
 	}()
 	e.runInit(h.pkg)
+	e.started = time.Now()
 	st := e.newState()
 	outs := e.callFunc(st, h.fn, nil, nil, nil)
 	_ = outs
@@ -435,7 +436,7 @@ type nativeOutcome struct {
 func (nr *nativeRunner) run(bin string, harness string, replayFile string) nativeOutcome {
 	sh := fmt.Sprintf("ulimit -v 6000000; exec %s -test.run '^TestVPReplay$' -test.count=1 -test.timeout 60s", bin)
 	cmd := exec.Command("sh", "-c", sh)
-	cmd.Env = append(os.Environ(), "VP_REPLAY="+replayFile, "VP_HARNESS="+harness)
+	cmd.Env = append(os.Environ(), "VP_REPLAY="+replayFile, "VP_HARNESS="+harness, "TZ=UTC")
 	cmd.Dir = filepath.Dir(bin)
 	done := make(chan struct{})
 	var out []byte
